@@ -2,11 +2,20 @@
    Property theorems only (proofs in Calc/FixpointProofs.v).  `as_input d` (Calc/Symmetry.v) is the
    document a reader gets back from the serialised result of `calculate d`: stored prices are the
    converted prices, stored discount / charge / advance / due amounts are the PRESENTED amounts.
-   Partial: the theorem covers the modelled calculation core; serialisation of whole documents,
-   normalisers and map-order independence are covered by iteration of the implementation
-   (tools/props/c04.py), the leaf codecs by C06, read-only envelope operations by C10. *)
+   The second half of this file is about the non-numeric mechanisms the property names: the code
+   normalisers (Fix/CodeNorm.v), the scenario-note step (Fix/ScenarioNotes.v), the serialisation of
+   maps with string keys (Fix/MapJson.v) and the leaf codecs (Fix/DateText.v, Num/Codec.v); each model
+   is tied to the Go code by a correspondence stream of tools/props/c04norm.py and, for the regular
+   expressions, by the translator (Gen/CodePatterns.v).  Tax-identity normalisation is C13
+   (TaxId/NormProofs.v), read-only envelope operations are C10.  Serialisation of whole documents and
+   process independence remain covered by iteration of the implementation (tools/props/c04.py). *)
+From Coq Require Import Strings.String.
 From Coq Require Import ZArith List Bool.
 From Verif Require Import Base.Wire Num.Amount Calc.Doc Calc.Calc Calc.Symmetry Calc.CurrencySpec Calc.FixpointProofs Calc.FixpointGenProofs.
+From Coq Require Import Permutation Strings.Byte QArith.
+From Verif Require Import Schema.Regex Defs.DefTypes Json.Utf8 Json.Json Num.Codec Num.CodecProofs.
+From Verif Require Import Fix.CodeNorm Fix.CodeNormProofs Fix.ScenarioNotes Fix.ScenarioNotesProofs Fix.MapJson Fix.MapJsonProofs Fix.DateText Fix.DateTextProofs.
+From Verif Require Gen.CodePatterns.
 Import ListNotations.
 Open Scope Z_scope.
 
@@ -67,3 +76,229 @@ Proof.
   - unfold fixpoint_doc_wf, currency_doc_wf, line_items_wf, ddc_fixed_ok. cbn. repeat split; repeat constructor; cbn; intros; auto.
   - eexists. eexists. split; [vm_compute; reflexivity|]. split; vm_compute; reflexivity.
 Qed.
+
+
+(* ======================================================================================== *)
+(* Non-numeric half                                                                           *)
+(* ======================================================================================== *)
+
+(* ---- 1. code normalisers (cbc/code.go) ----
+   The character classes of the model are the classes of the regular expressions in the Go source
+   (rendered by harness/gen_codepatterns.go): a change of a pattern breaks these equalities. *)
+Theorem normaliser_patterns_are_the_source_patterns :
+  Gen.CodePatterns.code_pattern_src = bs "^[A-Za-z0-9]+([\.\-\/ _\:]?[A-Za-z0-9]+)*$"%string /\
+  Gen.CodePatterns.code_separator_src = bs "([\.\-\/ _\:])[^A-Za-z0-9]+"%string /\
+  Gen.CodePatterns.code_invalid_chars_src = bs "[^A-Za-z0-9\.\-\/ _\:]"%string /\
+  Gen.CodePatterns.code_non_alphanumerical_src = bs "[^A-Z\d]"%string /\
+  Gen.CodePatterns.code_non_numerical_src = bs "[^\d]"%string /\
+  Gen.CodePatterns.key_pattern_src = bs "^(?:[a-z]|[a-z0-9][a-z0-9-+]*[a-z0-9])$"%string.
+Proof. exact pattern_texts_pinned. Qed.
+Print Assumptions normaliser_patterns_are_the_source_patterns.
+
+Theorem code_separator_classes :
+  Gen.CodePatterns.code_separator =
+  mkPattern Gen.CodePatterns.code_separator_src false false (RCat (RSet false sep_ranges) (rplus (rnegclass alnum_ranges))).
+Proof. exact code_separator_pinned. Qed.
+Print Assumptions code_separator_classes.
+
+Theorem code_invalid_chars_class :
+  Gen.CodePatterns.code_invalid_chars = mkPattern Gen.CodePatterns.code_invalid_chars_src false false (rnegclass allowed_ranges).
+Proof. exact code_invalid_chars_pinned. Qed.
+Print Assumptions code_invalid_chars_class.
+
+Theorem code_non_alphanumerical_class :
+  Gen.CodePatterns.code_non_alphanumerical = mkPattern Gen.CodePatterns.code_non_alphanumerical_src false false (rnegclass upper_digit_ranges).
+Proof. exact code_non_alphanumerical_pinned. Qed.
+Print Assumptions code_non_alphanumerical_class.
+
+Theorem code_non_numerical_class :
+  Gen.CodePatterns.code_non_numerical = mkPattern Gen.CodePatterns.code_non_numerical_src false false (rnegclass digit_ranges).
+Proof. exact code_non_numerical_pinned. Qed.
+Print Assumptions code_non_numerical_class.
+
+(* NormalizeCode is idempotent on EVERY byte string (Unicode white space, malformed UTF-8 included) *)
+Theorem normalize_code_idempotent s : normalize_code (normalize_code s) = normalize_code s.
+Proof. exact (normalize_code_idem s). Qed.
+Print Assumptions normalize_code_idempotent.
+
+(* its output: only A-Za-z0-9 and the six separators; a separator is followed by an alphanumerical or
+   ends the text; no space at either end *)
+Theorem normalize_code_output_is_clean s :
+  let o := normalize_code s in
+  Forall (fun c => is_allowed c = true) o /\
+  (forall a c b, o = a ++ c :: b -> is_sep c = true -> b = [] \/ exists d b', b = d :: b' /\ is_alnum d = true) /\
+  (forall c r, o = c :: r -> bN c <> 32%N) /\ (forall a c, o = a ++ [c] -> bN c <> 32%N).
+Proof. exact (normalize_code_output_clean s). Qed.
+Print Assumptions normalize_code_output_is_clean.
+
+(* a valid code (Code.Validate: 1..32 characters matching CodePattern) is left alone *)
+Theorem normalize_code_keeps_valid_codes s : code_valid s = true -> normalize_code s = s.
+Proof. exact (normalize_code_fixes_valid s). Qed.
+Print Assumptions normalize_code_keeps_valid_codes.
+Example normalize_code_keeps_valid_codes_nonvacuous : code_valid (bs "INV-2024/001 A_b:c.d"%string) = true.
+Proof. reflexivity. Qed.
+
+(* FULL STATEMENT "the output is a valid code or empty" is false: a separator may remain at either
+   end, and nothing limits the length *)
+Theorem normalize_code_output_valid_refuted : exists s, normalize_code s = s /\ s <> [] /\ code_valid s = false.
+Proof. exact normalize_code_valid_refuted. Qed.
+Print Assumptions normalize_code_output_valid_refuted.
+
+Theorem normalize_alphanumerical_code_idempotent s : normalize_alnum_code (normalize_alnum_code s) = normalize_alnum_code s.
+Proof. exact (normalize_alnum_idem s). Qed.
+Print Assumptions normalize_alphanumerical_code_idempotent.
+
+Theorem normalize_alphanumerical_code_output s :
+  forallb is_upper_digit (normalize_alnum_code s) = true /\
+  (normalize_alnum_code s = [] \/ pattern_matches Gen.CodePatterns.code_pattern (normalize_alnum_code s) = true).
+Proof. exact (conj (normalize_alnum_output s) (normalize_alnum_valid_or_empty s)). Qed.
+Print Assumptions normalize_alphanumerical_code_output.
+
+Theorem normalize_numerical_code_idempotent s : normalize_num_code (normalize_num_code s) = normalize_num_code s.
+Proof. exact (normalize_num_idem s). Qed.
+Print Assumptions normalize_numerical_code_idempotent.
+
+Theorem normalize_numerical_code_output s : forallb is_digit_c (normalize_num_code s) = true.
+Proof. exact (normalize_num_output s). Qed.
+Print Assumptions normalize_numerical_code_output.
+
+(* ---- 2. scenario notes (bill/invoice_scenarios.go) ----
+   prepare_notes ss notes = inv.Notes after removePreviousScenarioNotes + the loop of prepareScenarios,
+   for the scenarios ss (with the flag "matches this document") and the notes the document came with. *)
+
+(* FULL STATEMENT (false of the faithful model, hence of the code; known finding
+   C04-scenario-notes-reorder): a second calculation leaves the notes as the first one left them *)
+Theorem scenario_notes_fixpoint_refuted : exists ss notes, prepare_notes ss (prepare_notes ss notes) <> prepare_notes ss notes.
+Proof. exact shipped_refuted. Qed.
+Print Assumptions scenario_notes_fixpoint_refuted.
+
+(* what holds of the code as shipped, for EVERY scenario list and note list: the result of the second
+   calculation is final *)
+Theorem scenario_notes_stable_from_second_calculation ss notes :
+  prepare_notes ss (prepare_notes ss (prepare_notes ss notes)) = prepare_notes ss (prepare_notes ss notes).
+Proof. exact (shipped_stable_from_second ss notes). Qed.
+Print Assumptions scenario_notes_stable_from_second_calculation.
+
+(* ... and the first one already is when no scenario replaces the code of its note (ExtCode = Note.Code
+   for every scenario that has a note: every regime and add-on shipped except pt-saft-v1) *)
+Theorem scenario_notes_fixpoint_when_codes_agree ss notes :
+  codes_agree ss -> prepare_notes ss (prepare_notes ss notes) = prepare_notes ss notes.
+Proof. exact (shipped_fixpoint_when_codes_agree ss notes). Qed.
+Print Assumptions scenario_notes_fixpoint_when_codes_agree.
+Example codes_agree_nonvacuous :
+  codes_agree [mkSc true [] (Some (mkSN (bs "legal"%string) [] (bs "reverse-charge"%string) (bs "Reverse Charge"%string) []))].
+Proof. intros s n [<-|[]] H. inversion H. reflexivity. Qed.
+
+(* with fixes/C04-1-scenario-note-codes.diff (ScenarioSet.Notes() lists the notes as SummaryFor adds
+   them) the step is a fixpoint for EVERY scenario list and EVERY note list *)
+Theorem scenario_notes_fixpoint_repaired ss notes :
+  prepare_notes_fixed ss (prepare_notes_fixed ss notes) = prepare_notes_fixed ss notes.
+Proof. exact (fixed_fixpoint ss notes). Qed.
+Print Assumptions scenario_notes_fixpoint_repaired.
+
+Theorem scenario_notes_repair_changes_nothing_when_codes_agree ss notes :
+  codes_agree ss -> prepare_notes_fixed ss notes = prepare_notes ss notes.
+Proof. exact (fixed_agrees_when_codes_agree ss notes). Qed.
+Print Assumptions scenario_notes_repair_changes_nothing_when_codes_agree.
+
+(* notes that no scenario declares (by key, code and source) are kept, in their order, in front of the
+   notes the scenarios add *)
+Theorem scenario_notes_keep_the_other_notes ss notes :
+  exists added, prepare_notes ss notes = filter (keep_note (all_snotes ss)) notes ++ added /\
+    forall x, In x added -> exists sn, In sn (summary_notes ss) /\ x = Some (from_scenario sn).
+Proof. exact (other_notes_kept all_snotes ss notes). Qed.
+Print Assumptions scenario_notes_keep_the_other_notes.
+
+(* Note.SameAs compares key, code and source only: a note of the user's that shares them with a declared
+   scenario note is replaced by the scenario's text when the scenario applies and DELETED when it does not *)
+Theorem scenario_notes_user_note_with_scenario_key :
+  prepare_notes [mkSc true [] (Some (mkSN (bs "legal"%string) [] (bs "reverse-charge"%string) (bs "Reverse Charge"%string) []))] [Some wit_user_note]
+  = [Some (mkNote (bs "legal"%string) [] (bs "reverse-charge"%string) (bs "Reverse Charge"%string) [] [])] /\
+  prepare_notes [mkSc false [] (Some (mkSN (bs "legal"%string) [] (bs "reverse-charge"%string) (bs "Reverse Charge"%string) []))] [Some wit_user_note] = [].
+Proof. exact user_note_with_scenario_key_replaced. Qed.
+Print Assumptions scenario_notes_user_note_with_scenario_key.
+
+(* as shipped a note added under an ExtCode is never removed again (exemption M01 -> M02) *)
+Theorem scenario_notes_stale_note :
+  prepare_notes wit_scenarios_m02 (prepare_notes wit_scenarios_m01 [])
+  = [Some (mkNote (bs "legal"%string) (bs "M01"%string) (bs "pt-saft-exemption"%string) (bs "Artigo 16"%string) [] []);
+     Some (mkNote (bs "legal"%string) (bs "M02"%string) (bs "pt-saft-exemption"%string) (bs "Artigo 6"%string) [] [])] /\
+  prepare_notes_fixed wit_scenarios_m02 (prepare_notes_fixed wit_scenarios_m01 [])
+  = [Some (mkNote (bs "legal"%string) (bs "M02"%string) (bs "pt-saft-exemption"%string) (bs "Artigo 6"%string) [] [])].
+Proof. exact stale_note_witness. Qed.
+Print Assumptions scenario_notes_stale_note.
+
+(* ---- 3. map iteration order (encoding/json on cbc.Meta / tax.Extensions) ----
+   m1, m2: two listings of the entries of the same Go map *)
+Theorem marshal_map_order_independent m1 m2 :
+  Permutation m1 m2 -> NoDup (map fst m1) -> marshal_map m1 = marshal_map m2.
+Proof. exact (marshal_map_perm m1 m2). Qed.
+Print Assumptions marshal_map_order_independent.
+Example marshal_map_order_independent_nonvacuous :
+  Permutation [(bs "b"%string, bs "1"%string); (bs "a"%string, bs "<2>"%string)] [(bs "a"%string, bs "<2>"%string); (bs "b"%string, bs "1"%string)] /\
+  NoDup (map fst [(bs "b"%string, bs "1"%string); (bs "a"%string, bs "<2>"%string)]) /\
+  marshal_map [(bs "b"%string, bs "1"%string); (bs "a"%string, bs "<2>"%string)] = [x7b] ++ bs """a"":""\u003c2\u003e"",""b"":""1"""%string ++ [x7d].
+Proof.
+  split; [apply perm_swap|]. split; [|reflexivity].
+  constructor; [intros [H|[]]; discriminate|]. constructor; [intros []|constructor].
+Qed.
+
+(* the members are written in ascending key order and are exactly the entries *)
+Theorem marshal_map_writes_the_entries_in_key_order m :
+  Permutation (sorted_entries m) m /\
+  Sorted.StronglySorted (fun a b => bytes_ltb (fst b) (fst a) = false) (sorted_entries m).
+Proof. exact (conj (sorted_entries_perm m) (sorted_entries_sorted m)). Qed.
+Print Assumptions marshal_map_writes_the_entries_in_key_order.
+
+(* reading back what was written: the members read are the entries, in key order.  Partial: for
+   texts that are well-formed UTF-8 without U+FFFD, U+2028 and U+2029 (those three are written as
+   escapes; they are compared with the implementation by the map-parse stream, not proved) *)
+Theorem map_read_back_partial m :
+  Forall (fun kv => text_plain (fst kv) = true /\ text_plain (snd kv) = true) m ->
+  parse_map (marshal_map m) = Some (sorted_entries m).
+Proof. exact (parse_marshal_map m). Qed.
+Print Assumptions map_read_back_partial.
+Example map_read_back_nonvacuous :
+  Forall (fun kv => text_plain (fst kv) = true /\ text_plain (snd kv) = true)
+    [(bs "b-1"%string, [x3c; xc3; xa9; x22; x0a; x5c]); (bs "a"%string, [])].
+Proof. repeat constructor. Qed.
+
+(* ---- 4. leaf codecs: parse then serialise is the identity ---- *)
+(* cal.Date *)
+Theorem date_read_back d : date_storable d = true -> parse_date (print_date d) = Some d.
+Proof. exact (parse_print_date d). Qed.
+Print Assumptions date_read_back.
+Example date_read_back_nonvacuous : date_storable (mkDate 2024 2 29) = true /\ date_storable zero_date = true /\ date_storable (mkDate 2023 2 29) = false.
+Proof. repeat split; reflexivity. Qed.
+
+Theorem date_written_back s d : parse_date s = Some d -> print_date d = s /\ date_storable d = true.
+Proof. exact (print_parse_date s d). Qed.
+Print Assumptions date_written_back.
+Example date_written_back_nonvacuous : parse_date (bs "2024-02-29"%string) = Some (mkDate 2024 2 29) /\ parse_date (bs "2024-2-29"%string) = None.
+Proof. split; reflexivity. Qed.
+
+Theorem date_reader_accepts_only_written_dates s :
+  (exists d, parse_date s = Some d) <-> exists d, date_storable d = true /\ s = print_date d.
+Proof. exact (parse_accepts_only_printed s). Qed.
+Print Assumptions date_reader_accepts_only_written_dates.
+
+(* amounts and percentages: the C06 theorems (Num/CodecProofs.v) under the names this property uses *)
+Theorem amount_read_back a : amount_ok a = true -> parse_amount_fixed (print_amount_fixed a) = Some a.
+Proof. exact (parse_print_fixed a). Qed.
+Print Assumptions amount_read_back.
+
+Theorem amount_read_back_shipped a : amount_ok a = true -> val a <> min64 -> parse_amount (print_amount a) = Some a.
+Proof. exact (parse_print_shipped a). Qed.
+Print Assumptions amount_read_back_shipped.
+
+Theorem amount_json_read_back a :
+  amount_ok a = true -> unmarshal_json parse_amount_fixed (quote (print_amount_fixed a)) = Rok a.
+Proof. exact (json_quoted_roundtrip a). Qed.
+Print Assumptions amount_json_read_back.
+
+Theorem percentage_read_back p :
+  amount_ok (pct_amount p) = true -> (2 <= exp p)%nat -> parse_pct_fixed (print_pct_fixed p) = Some p.
+Proof. exact (pct_roundtrip_exact_fixed p). Qed.
+Print Assumptions percentage_read_back.
+Example leaf_codec_domains_nonvacuous : amount_ok (mkA (-12345) 3) = true /\ amount_ok (pct_amount (mkA 165 3)) = true.
+Proof. split; reflexivity. Qed.
